@@ -133,6 +133,10 @@ def check(cfg, lines):
             if what in ("cputg", "cgetg"):
                 # a granted request withdrawn in this instant: remembered until the node's next movement
                 withdrawn.append((t, ed, what))
+            elif what == "stamp":
+                v("C18", "item %d moving over edge %d at %s: %s" % (nq, ed, t, {1: "one of its time stamps lies in the future",
+                  2: "its node entry / exit stamp precedes its creation stamp", 3: "it leaves a node with an exit stamp earlier than its entry stamp",
+                  4: "one of its time stamps was set back"}.get(nfree, "time stamps out of order")))
             elif what == "occ":
                 v("C03", "edge %d at the end of instant %s holds %d item(s), %d went in through its put and have not come out through its get" % (ed, t, nq, nfree))
             elif what == "put":
@@ -398,6 +402,26 @@ def check(cfg, lines):
                     blk_t += max(0.0, min(end_, T) - min(tp_ + d_, T))
                 if abs(ts[2] - proc_t) > 1e-6 or abs(ts[3] - blk_t) > 1e-6:
                     v("C17", "splitter %d: PROCESSING / BLOCKED charged %s / %s, its pallets were in processing for %s and waited for room for %s" %
+                      (n, ts[2], ts[3], proc_t, blk_t))
+            if kind == "combiner" and ncfg[n]["blocking"] and len(ts) == 4:
+                # one worker: processing for one delay from the instant the last ingredient was pulled, then blocked until
+                # the packed pallet has left
+                nc_ = ncfg[n]
+                proc_t = blk_t = 0.0
+                pallets_ = [(t_, pal_) for (t_, pal_, e_) in pull_log[n] if e_ == nc_["ins"][0]]
+                need_ = sum(q for k2, q in enumerate(nc_["recipe"]) if 1 <= k2 < len(nc_["ins"]))
+                for k_, (t_, pal_) in enumerate(pallets_):
+                    d_ = nc_["delays"][k_ % len(nc_["delays"])]
+                    ing_ = [tt for (tt, i2, e2) in pull_log[n] if any(i2 == x and pk == n for (x, _, pk) in packed[pal_])]
+                    if len(ing_) < need_:
+                        continue            # still gathering
+                    start_ = max([t_] + ing_)
+                    outs_ = [tq for (tq, i2, e2) in push_log[n] if i2 == pal_]
+                    end_ = outs_[0] if outs_ else T
+                    proc_t += max(0.0, min(start_ + d_, T) - min(start_, T))
+                    blk_t += max(0.0, min(end_, T) - min(start_ + d_, T))
+                if abs(ts[2] - proc_t) > 1e-6 or abs(ts[3] - blk_t) > 1e-6:
+                    v("C17", "combiner %d: PROCESSING / BLOCKED charged %s / %s, its pallets were in processing for %s and waited for room for %s" %
                       (n, ts[2], ts[3], proc_t, blk_t))
             if kind in ("splitter", "combiner") and max_units[n] > 1:
                 v("C08", "%s %d held %d pallets (units of work) at once, it has one worker" % (kind, n, max_units[n]))
